@@ -147,6 +147,7 @@ type runner struct {
 	sw      *syncWorld
 	rng     *hx.Rng
 	tier    string
+	seed    uint64
 	coqLeft map[string]int // per layer budget of cases handed to the model
 	n       int
 	fails   int
@@ -492,7 +493,7 @@ func main() {
 	tr := hx.NewTrace(a.Out)
 	defer tr.Close()
 
-	r := &runner{tr: tr, rng: hx.NewRng(a.Seed), tier: a.Tier, coqLeft: map[string]int{}}
+	r := &runner{tr: tr, rng: hx.NewRng(a.Seed), tier: a.Tier, seed: a.Seed, coqLeft: map[string]int{}}
 	r.sw = newSyncWorld(a.Tier == "thorough")
 
 	if a.Replay != "" {
@@ -539,11 +540,22 @@ func main() {
 		}
 	}
 
-	for _, sd := range r.sw.seeds {
-		r.runSeed(sd)
+	only := os.Getenv("C03_ONLY") // development aid: "sync" or "proto"
+
+	if only != "proto" {
+		for _, sd := range r.sw.seeds {
+			t0, n0 := time.Now(), r.n
+			r.runSeed(sd)
+
+			if os.Getenv("C03_TIMING") != "" {
+				fmt.Fprintf(os.Stderr, "c03: seed %s: %d calls, %v\n", sd.Name, r.n-n0, time.Since(t0))
+			}
+		}
 	}
 
-	r.runProtocols()
+	if only != "sync" {
+		r.runProtocols()
+	}
 
 	fmt.Fprintf(os.Stderr, "c03: %d fenced calls, %d oracle failures\n", r.n, r.fails)
 }
